@@ -1,3 +1,4 @@
+pub mod admit;
 pub mod bigrec;
 pub mod cache;
 pub mod conc;
@@ -21,6 +22,7 @@ static CORR: corr::CorrEngine = corr::CorrEngine;
 static CACHE: cache::CacheEngine = cache::CacheEngine;
 static GOLDEN: golden::GoldenEngine = golden::GoldenEngine;
 static BIGREC: bigrec::BigRecEngine = bigrec::BigRecEngine;
+static ADMIT: admit::AdmitEngine = admit::AdmitEngine;
 
 pub fn engine_by_name(name: &str) -> &'static dyn Engine {
     match name {
@@ -34,6 +36,7 @@ pub fn engine_by_name(name: &str) -> &'static dyn Engine {
         "cache" => &CACHE,
         "golden" => &GOLDEN,
         "bigrec" => &BIGREC,
+        "admit" => &ADMIT,
         other => {
             eprintln!("unknown engine {other}");
             std::process::exit(2);
@@ -106,7 +109,7 @@ pub fn plan(property: &str) -> Option<Plan> {
         "C08" => (vec![stage("conc", "C08", 40_000, 1_000_000)], "exploration"),
         "C11" => (vec![stage("seq", "C11", 24_000, 300_000), stage("conc", "C11", 30_000, 600_000), stage("crash", "C11", 2_500, 30_000), stage("bigrec", "C11", 16, 200)], "exploration"),
         "C12" => (vec![stage("seq", "C12", 24_000, 300_000), stage("crash", "C12", 1_500, 20_000), stage("conc", "C11", 15_000, 300_000)], "exploration"),
-        "C13" => (vec![stage("seq", "C13", 24_000, 300_000), stage("conc", "C13", 40_000, 800_000), stage("crash", "C13", 2_000, 20_000)], "exploration"),
+        "C13" => (vec![stage("seq", "C13", 24_000, 300_000), stage("conc", "C13", 40_000, 800_000), stage("crash", "C13", 2_000, 20_000), stage("admit", "C13", 20_000, 400_000)], "exploration"),
         "C14" => (vec![stage("seq", "C14", 24_000, 300_000), stage("conc", "C14", 40_000, 800_000)], "exploration"),
         "C15" => (vec![stage("migr", "C15", 8_000, 120_000)], "exploration"),
         "C16" => (vec![stage("seq", "C16", 12_000, 200_000), stage("conc", "C16", 30_000, 600_000), stage("cache", "C16", 20_000, 300_000)], "exploration"),
